@@ -134,7 +134,9 @@ def run():
 
     def both(name, canon, doc, tag):
         return {"tag": tag, "loads": [dict(name=name, canon=canon, doc=doc, unpack=False, mode="fresh"),
-                                      dict(name=name, canon=canon, doc=doc, unpack=True, mode="cached")]}
+                                      dict(name=name, canon=canon, doc=doc, unpack=True, mode="cached")] +
+                ([dict(name=name, canon=canon, doc=doc, unpack=False, mode="after_edit"),
+                  dict(name=name, canon=canon, doc=doc, unpack=True, mode="after_edit")] if doc == "bundled" else [])}
 
     names = [r["name"] for r in registry]
     for r in registry:
